@@ -90,6 +90,37 @@ func runLBDist(x *X) {
 		return m
 	}
 
+	ejectMember := func(m member) {
+		b := net.byName[m.name]
+		net.mu.Lock()
+		b.mode = "s500"
+		net.mu.Unlock()
+		x.Fault("backend-s500")
+		ok := false
+		net.mu.Lock()
+		d0 := b.dispatched
+		net.mu.Unlock()
+		for j := 0; j < 4*len(members)*threshold+8 && !x.dead; j++ {
+			oneReq("192.0.2.1")
+			net.mu.Lock()
+			hit := b.dispatched > d0
+			net.mu.Unlock()
+			// a stale flag (window elapsed, not yet re-examined) is not an ejection: the
+			// backend must have received one of these requests and be flagged afterwards
+			if f := flags(); f != nil && !f[m.name] && hit {
+				ok = true
+				break
+			}
+		}
+		net.mu.Lock()
+		b.mode = "ok"
+		net.mu.Unlock()
+		if ok {
+			ejectedUntil[m.name] = x.Now() + W
+			hist = append(hist, "eject("+m.name+")")
+		}
+	}
+
 	// ---- history ------------------------------------------------------------
 	nHist := c.Intn(6, "nhist")
 	freshPool := nHist == 0
@@ -153,35 +184,7 @@ func runLBDist(x *X) {
 			delete(ejectedUntil, m.name)
 			hist = append(hist, "remove("+m.name+")")
 		case 2: // eject one backend through real failures
-			m := members[c.Intn(len(members), "ej")]
-			b := net.byName[m.name]
-			net.mu.Lock()
-			b.mode = "s500"
-			net.mu.Unlock()
-			x.Fault("backend-s500")
-			ok := false
-			net.mu.Lock()
-			d0 := b.dispatched
-			net.mu.Unlock()
-			for j := 0; j < 4*len(members)*threshold+8 && !x.dead; j++ {
-				oneReq("192.0.2.1")
-				net.mu.Lock()
-				hit := b.dispatched > d0
-				net.mu.Unlock()
-				// a stale flag (window elapsed, not yet re-examined) is not an ejection: the
-				// backend must have received one of these requests and be flagged afterwards
-				if f := flags(); f != nil && !f[m.name] && hit {
-					ok = true
-					break
-				}
-			}
-			net.mu.Lock()
-			b.mode = "ok"
-			net.mu.Unlock()
-			if ok {
-				ejectedUntil[m.name] = x.Now() + W
-				hist = append(hist, "eject("+m.name+")")
-			}
+			ejectMember(members[c.Intn(len(members), "ej")])
 		case 3: // time passes: recover
 			x.Advance(W+time.Second, onErr)
 			hist = append(hist, "time(>window)")
@@ -191,6 +194,39 @@ func runLBDist(x *X) {
 				oneReq("192.0.2.1")
 			}
 			hist = append(hist, fmt.Sprintf("traffic(%d)", k))
+		}
+	}
+	// least_connections scans the pool in order: an ejected backend (no connections, so the
+	// smallest gauge of all) in the middle of the pool is the interesting position
+	if strategy == "least_connections" && len(members) >= 3 && !x.dead && c.Intn(3, "lc-eject-middle") == 0 {
+		// (sequential requests all go to the first idle backend: to reach a middle one, requests
+		// are held open until every member has one, then released; the target answers 500)
+		m := members[1+c.Intn(len(members)-2, "lc-middle")]
+		b := net.byName[m.name]
+		net.mu.Lock()
+		b.mode = "s500"
+		net.mu.Unlock()
+		x.Fault("backend-s500")
+		var held []*reqPlan
+		for j := 0; j < len(members)*threshold && !x.dead; j++ {
+			p := &reqPlan{hold: true}
+			held = append(held, p)
+			s.Spawn("lc-hold", func() { h.do(reqSpec{client: "192.0.2.1", plan: p}) })
+			x.Settle(onErr)
+		}
+		net.mu.Lock()
+		for _, p := range held {
+			p.released = true
+		}
+		net.mu.Unlock()
+		x.RunTasks(onErr)
+		net.mu.Lock()
+		b.mode = "ok"
+		net.mu.Unlock()
+		if f := flags(); f != nil && !f[m.name] {
+			ejectedUntil[m.name] = x.Now() + W
+			hist = append(hist, "eject-middle("+m.name+")")
+			x.Probe("lc-middle-ejected")
 		}
 	}
 	if x.dead {
